@@ -61,12 +61,20 @@ sys.path.insert(0, os.environ.get("VERIF_ROOT", "/verif"))
 from vx import props
 ids = checks or sorted(props.PROPS)
 res = {}
+e2 = dict(os.environ, VERIF_REPO=C)
+t0 = time.time()
+r = subprocess.run(["./check"] + ids, cwd=os.environ.get("VERIF_ROOT", "/verif"), env=e2, capture_output=True, text=True)
+summ = {}
+for l in r.stdout.split("\n"):
+    if l.startswith("SUMMARY "):
+        summ = json.loads(l[8:])
+if not summ and len(ids) == 1:
+    summ = {ids[0]: r.returncode}
 for c in ids:
-    e2 = dict(os.environ, VERIF_REPO=C)
-    t0 = time.time()
-    r = subprocess.run(["./check", c], cwd=os.environ.get("VERIF_ROOT", "/verif"), env=e2, capture_output=True, text=True)
-    line = [l for l in r.stdout.split("\n") if l.startswith(("VIOLATION", "OK", "INCONCLUSIVE", "failed obligation"))]
-    res[c] = {"rc": r.returncode, "out": line[:4], "s": round(time.time() - t0, 1)}
+    lines = [l for l in r.stdout.split("\n") if ("property=%s " % c) in l and l.startswith(("VIOLATION", "OK", "INCONCLUSIVE"))]
+    res[c] = {"rc": summ.get(c, 2), "out": [l[:300] for l in lines[:3]]}
+meta["checks_wall_s"] = round(time.time() - t0, 1)
+meta["failed_obligations"] = [l[:200] for l in r.stdout.split("\n") if l.startswith("failed obligation")][:12]
 meta["checks"] = res
 meta["detected_by"] = [c for c, v in res.items() if v["rc"] == 1]
 meta["inconclusive"] = [c for c, v in res.items() if v["rc"] == 2]
